@@ -634,6 +634,23 @@ func (g *Gen) genKind(k string) *Op {
 								break
 							}
 						}
+						// a provider usually migrates several data ids in one message
+						for j, d2 := range e.Data {
+							if j == i || len(op.Ds) >= 5 || !r.Chance(0.6) {
+								continue
+							}
+							for k := 1; k <= 6; k++ {
+								if h := e.holderOf(d2, k, true); h == a {
+									op.Ds = append(op.Ds, j)
+									break
+								} else if h == nil {
+									break
+								}
+							}
+						}
+						if len(op.Ds) > 1 {
+							e.probe("migrate_several_data_ids")
+						}
 						return op
 					}
 				}
@@ -981,7 +998,7 @@ func (g *Gen) genAdv() *Op {
 	if gw != nil && r.Chance(0.5) {
 		relay = gw
 	}
-	switch r.Intn(12) {
+	switch r.Intn(13) {
 	case 0: // stranger-signed update with a commit id that embeds the data id
 		m, ok := pickMeta()
 		if !ok {
@@ -1075,6 +1092,30 @@ func (g *Gen) genAdv() *Op {
 			return nil
 		}
 		return &Op{K: "migrate", A: adv.Idx, Prov: v.Idx + 1, Ds: []int{m.d}, Note: "adv:migrate"}
+	case 12: // one signature, several models: the signer's own model first, somebody else's after it
+		var own, foreign []metaRef
+		for _, m := range ms {
+			if e.actorOfDid(s.Model.Metas[m.id].Owner) == adv {
+				own = append(own, m)
+			} else if m.stat == 4 {
+				foreign = append(foreign, m)
+			}
+		}
+		if len(own) == 0 {
+			// make the adversary a data owner first
+			gw2 := g.pickActor(w.Gateways)
+			if gw2 == nil {
+				return nil
+			}
+			d := g.nextData
+			g.nextData++
+			return &Op{K: "store", A: gw2.Idx, Own: adv.Idx + 1, D: d, Mode: "new", Rep: 1, Dur: 3600, Tmo: g.drawTmo(), Size: g.sizes(), Note: "adv:own-model"}
+		}
+		if len(foreign) == 0 {
+			return nil
+		}
+		o1, f1 := own[r.Intn(len(own))], foreign[r.Intn(len(foreign))]
+		return &Op{K: "renew", A: relay.Idx, Own: adv.Idx + 1, Ds: []int{o1.d, f1.d}, Dur: 3600, Tmo: 5, Note: "adv:batch-renew"}
 	case 11: // report faults without being a fishman
 		v := g.pickActor(w.SPs)
 		m, ok := pickMeta()
